@@ -58,7 +58,15 @@ class _Rewrite(ast.NodeTransformer):
         return node
 
 
+POST_IMPORT_HOOKS = []       # callables(module) run right after a shexer.* module has been executed (the harness wraps regexes there)
+
+
 class _Loader(importlib.machinery.SourceFileLoader):
+    def exec_module(self, module):
+        super().exec_module(module)
+        for hook in POST_IMPORT_HOOKS:
+            hook(module)
+
     def get_code(self, fullname):      # never use or write .pyc files: always the current source
         path = self.get_filename(fullname)
         return self.source_to_code(self.get_data(path), path)
